@@ -3,6 +3,7 @@
 -/
 import TwProofs.Lemmas.PlainText
 import TwProofs.Lemmas.TextPieces
+import TwProofs.Lemmas.TextRuns
 
 namespace Tw.C05
 open Tw
@@ -53,7 +54,37 @@ theorem escaped_directive_is_text (custom : List ((VType × Bytes) × Nat)) (a b
     evaluateStringPure custom ((a ++ [92]) ++ 64 :: b) data = .ok (a ++ 64 :: b) :=
   escaped_directive_render custom a b hpa hd hpb data env henv
 
+/-- **text and comments in general**: a template made of any number of text runs — each a sequence
+    of plain pieces and escapes (`\{{`, `\@directive`) — separated by comments with arbitrary
+    bodies renders as the concatenation of the runs with the escaping backslashes removed, for
+    every data map and every set of custom functions: one HTML token per run (`tokenize_items`),
+    one text statement per token (`parse_texts`), nothing evaluated.
+    `ItemsOK`: the plain pieces hold no "{{" and no directive keyword (given what follows), every
+    escape stands in front of something it escapes, a run that is followed by a comment does not
+    end in a backslash, the comment bodies do not hold the terminator.  The bound on the number of
+    runs is the model's evaluation fuel. -/
+theorem text_and_comments_render (custom : List ((VType × Bytes) × Nat)) (items : List Item) (hok : ItemsOK items)
+    (hsize : (itemsLits items).length + 1 ≤ evalFuel)
+    (data : List (Bytes × GoVal)) (env : Env) (henv : envFromMap data = .ok env) :
+    evaluateStringPure custom (itemsSrc items) data = .ok (itemsLits items).flatten :=
+  items_render custom items hok hsize data env henv
+
+/-- the token list of such a template: one HTML token per run, its literal the run's text -/
+theorem text_and_comments_tokens (items : List Item) (hok : ItemsOK items) :
+    ∃ toks e, tokenize (itemsSrc items) = some { toks := toks ++ [e], insideCode := false, panicked := false } ∧
+      toks.map (·.lit) = itemsLits items ∧ (∀ t ∈ toks, t.ty = .HTML) ∧ e.ty = .EOF :=
+  tokenize_items items hok
+
 /-! non-vacuity -/
+
+/-- a run with two escapes, a comment holding code, a comment right behind it, a last run:
+    `a \{{ b }} \@if(x){{-- {{ y }} @end --}}{{----}} z\` -/
+example :
+    let items : List Item := [.text [.plain (b "a "), .esc 123, .plain (b "{ b }} "), .esc 64, .plain (b "if(x)")],
+      .comment (b " {{ y }} @end "), .comment [], .text [.plain (b " z\\")]]
+    ItemsOK items ∧ itemsSrc items = b "a \\{{ b }} \\@if(x){{-- {{ y }} @end --}}{{----}} z\\" ∧
+      (itemsLits items).flatten = b "a {{ b }} @if(x) z\\" := by
+  decide
 
 example : Plain (b "}} a { } \\ x@y @ix @ \r\n") := by decide
 example : ¬ Plain (b "a{{") := by decide
